@@ -28,3 +28,8 @@ func (s *Storage) ShiftTimes(deltaMs int64) { s.m.VerifShiftTimes(deltaMs) }
 
 // Module returns the underlying module (implements protocol.Module and the storage Module interface).
 func (s *Storage) Module() *storage.InMemoryStorage { return s.m }
+
+// Start runs the module's real Start with the given number of workers; Stop its real Stop; Channel is its request channel.
+func (s *Storage) Start(workers, queueDepth int) error    { return s.m.VerifStart(workers, queueDepth) }
+func (s *Storage) Stop() error                            { return s.m.VerifStop() }
+func (s *Storage) Channel() chan *protocol.StorageRequest { return s.m.VerifChannel() }
